@@ -276,6 +276,7 @@ class Runner:
         self.snap = {}  # serial -> (element identities, child identities) at the last dump
         self.creators = {}  # id(creator token) -> tree handle index
         self.cow_tokens = []
+        self.emptied_by_failed_exact = {}  # tree -> its root was left empty by a delete_exact that raised ValueError
         self._cow = None
         self.height_before = 0
         self.curs = []  # (tree index, cursor, refcursor, open)
@@ -489,12 +490,17 @@ class Runner:
                     cur = tr.get_element(kenc(k))
                     if cur is not None and cur is self.objs.get((k, a[2])):
                         self.fail("C19/delete_exact/rejected-own", f"op {at} {tok}: ValueError although the stored element was passed", at)
+                if (not tr.root.is_leaf) and len(tr.root.elts) == 0:
+                    # the failed delete_exact merged the root's children on its way down and left the root empty
+                    self.emptied_by_failed_exact[h] = True
                 return self.after_mutation(h, at, "VE")
             except IndexError as e:
                 # no operation of a sorted dictionary raises IndexError
                 # trigger class: the root was an internal node without elements before the call (left behind by an
                 # earlier deletion of an absent key, see KNOWN_FINDINGS); anything else is a different failure
-                if empty_root and op in ("D", "X"):
+                if empty_root and op in ("D", "X") and self.emptied_by_failed_exact.get(h):
+                    sig = "C19/delete/exception:IndexError/empty-internal-root-after-failed-delete_exact"
+                elif empty_root and op in ("D", "X"):
                     sig = "C19/delete/exception:IndexError/empty-internal-root"
                 else:
                     sig = f"C19/{op}/exception:IndexError"
@@ -503,6 +509,8 @@ class Runner:
                 return self.after_mutation(h, at, "EXC:IndexError")
             if frozen:
                 self.fail("C19/frozen/accepted-mutation", f"op {at} {tok}: mutation of a frozen tree did not raise Immutable", at)
+            if tr.root.is_leaf or len(tr.root.elts) > 0:
+                self.emptied_by_failed_exact[h] = False
             return self.after_mutation(h, at, res)
         if op in ("O", "R") and len(a) == 2:
             # the mapping / set API that mutates: d.pop(k); del d[k] / s.remove(k)
@@ -778,15 +786,39 @@ def collapse_always() -> int:
 COW_OPS = "IDXGCFOR"
 
 
+_VARIANT_ERR = None
+
+
+def collapse_on_error() -> int:
+    """Does `_delete` collapse an emptied root also when `delete` raised (a failed delete_exact)?  0 = no (an internal
+    root without elements stays until the next deletion), 1 = yes.  Probed on the implementation."""
+    global _VARIANT_ERR
+    if _VARIANT_ERR is None:
+        try:
+            tr = btree.BTreeSet(t=3)
+            for k in (0, 2, 4, 6, 8, 10):
+                tr.add(k)
+            tr.discard(10)
+            try:
+                tr.delete_exact(btree.Member(1))
+            except ValueError:
+                pass
+            _VARIANT_ERR = 0 if (not tr.root.is_leaf and len(tr.root.elts) == 0) else 1
+        except BaseException:
+            _VARIANT_ERR = 0
+    return _VARIANT_ERR
+
+
 def cow_line(case):
     """the same history for the mechanism-level model (heap of nodes with creator tokens): cursor and listing ops,
     which never touch a node, are left out"""
-    return (f"c19.cow {case['t']} {case['io']} {collapse_always()} {1 if case.get('set') else 0} "
+    return (f"c19.cow {case['t']} {case['io']} {collapse_always()} {collapse_on_error()} {1 if case.get('set') else 0} "
             + " ".join(t for t in case["ops"] if t[:1] in COW_OPS))
 
 
 def op_line(case):
-    return f"c19.hist {case['t']} {case['io']} {collapse_always()} {1 if case.get('set') else 0} " + " ".join(case["ops"])
+    return (f"c19.hist {case['t']} {case['io']} {collapse_always()} {collapse_on_error()} {1 if case.get('set') else 0} "
+            + " ".join(case["ops"]))
 
 
 def run_impl(case):
@@ -1145,12 +1177,20 @@ def gen_absent_sweeps(rng):
         n = rng.range(50, 64)
     present = [2 * i for i in range(n)]
     order = rng.choice(["asc", "asc", "desc", "nearasc"])
+    failing_exact = rng.chance(1, 2)  # delete_exact of elements that are not stored: each raises ValueError
     if pure:
         for k in key_order(rng, present, rng.choice(["asc", "desc"])):
             g.ins(0, k)
         for rep in range(8):
             for k in range(1, 2 * n, 2):
-                g.dele(0, k)
+                if failing_exact:
+                    g.ops.append(f"X,0,{k},999999")
+                else:
+                    g.dele(0, k)
+            if failing_exact and rng.chance(1, 3):
+                g.ops.append(f"X,0,{rng.choice(present)},999998")  # present key, foreign element
+        if failing_exact:
+            g.dele(0, rng.choice(present))
         return {"kind": "hist", "t": t, "io": 0, "set": g.is_set, "ops": g.ops}
     for k in key_order(rng, present, order):
         g.ins(0, k)
@@ -1173,7 +1213,10 @@ def gen_absent_sweeps(rng):
         if rng.chance(1, 2):
             sweep = sweep[: rng.range(1, len(sweep))]
         for k in sweep:
-            g.dele(h, k)
+            if failing_exact and rng.chance(3, 4):
+                g.ops.append(f"X,{h},{k},999999")
+            else:
+                g.dele(h, k)
             m = rng.below(40)
             if m == 0:
                 pres = sorted(g.present[h])
@@ -1188,6 +1231,35 @@ def gen_absent_sweeps(rng):
         if len(g.ops) > 700:
             break
     return {"kind": "hist", "t": t, "io": 0, "set": g.is_set, "ops": g.ops}
+
+
+def gen_cursor_reuse(rng):
+    """one or two cursors re-used on an unchanging tree of two or three levels: seek into the middle, a partial walk,
+    seek_first / seek_last / another seek, then a complete walk to the far boundary and back (no mutation in between,
+    so nothing is ever parked)"""
+    t = rng.choice([3, 3, 4])
+    n = rng.choice([8, 20, 40, 60, 90, 130]) if t == 3 else rng.choice([30, 70, 150])
+    ops = []
+    keys = list(range(0, 2 * n, 2))
+    for i, k in enumerate(key_order(rng, keys, rng.choice(["asc", "rand", "desc"]))):
+        ops.append(f"I,0,{k},{i + 1}")
+    if rng.chance(1, 4):
+        ops.append("F,0")
+    ncur = rng.choice([1, 2])
+    for c in range(ncur):
+        ops.append(f"c,0")
+    for _ in range(rng.range(3, 8)):
+        c = rng.below(ncur)
+        ops.append(f"s,{c},{rng.below(2 * n + 1)},{rng.below(2)}")
+        d = rng.choice("np")
+        ops += [f"{d},{c}"] * rng.range(0, 9)
+        if rng.chance(1, 3):
+            ops += [f"{'p' if d == 'n' else 'n'},{c}"] * rng.range(1, 4)
+        ops.append(rng.choice([f"f,{c}", f"l,{c}", f"f,{c}", f"l,{c}", f"s,{c},{rng.below(2 * n + 1)},{rng.below(2)}"]))
+        far = "n" if ops[-1].startswith("f") else ("p" if ops[-1].startswith("l") else rng.choice("np"))
+        ops += [f"{far},{c}"] * (n + 2)
+        ops += [f"{'p' if far == 'n' else 'n'},{c}"] * rng.choice([0, 3, n + 2])
+    return {"kind": "hist", "t": t, "io": rng.below(2), "set": False, "ktype": rng.choice(KTYPES), "ops": ops}
 
 
 KTYPES = ["int", "int", "int", "str", "name"]
@@ -1331,6 +1403,11 @@ def generate(ctx: Ctx, scale: float, rng):
         ctx.case(("curmut", case["t"], case["io"], case["set"], case["ktype"], tuple(case["ops"])),
                  nontrivial=bool(r and r.mutations), sample=_sample(case))
     for i in range(max(1, int(40 * scale))):
+        case = gen_cursor_reuse(rng)
+        eval_case(ctx, case)
+        ctx.count("cursor-reuse")
+        ctx.case(("curreuse", case["t"], case["ktype"], tuple(case["ops"])), nontrivial=True, sample=_sample(case))
+    for i in range(max(1, int(40 * scale))):
         case = gen_absent_sweeps(rng)
         r = eval_case(ctx, case)
         ctx.count("absent-sweeps")
@@ -1382,7 +1459,7 @@ def replay(ctx: Ctx, obj: dict):
 def impl_of_op(op: str):
     f = op.split()
     if f[0] == "c19.hist":
-        return run_impl({"kind": "hist", "t": int(f[1]), "io": int(f[2]), "set": f[4] == "1", "ops": f[5:]})[1]
+        return run_impl({"kind": "hist", "t": int(f[1]), "io": int(f[2]), "set": f[5] == "1", "ops": f[6:]})[1]
     return "?"
 
 
